@@ -412,6 +412,65 @@ def reimport (s : State) : Option State :=
     | .ok s' => some s'
     | .error _ => none
 
+/-! ## Executable well-formedness check
+
+The Boolean form of the hypotheses of the round-trip theorem (`Hub.Props.C12.GenWF`; soundness:
+`Hub.Props.C12.genWF_of_check`). It can be evaluated on every state of a run (model side, or a state loaded
+from the implementation's dump) as a monitor: `genWFViolations s = []` says the theorem applies to `s`. -/
+
+def nodupKeys {κ α : Type} [DecidableEq κ] (t : Tbl κ α) : Bool := !hasDup t.keys
+
+/-- Both partitions duplicate-free, records under their own key and status, no key in both. -/
+def partOKb {κ α : Type} [DecidableEq κ] (tA tI : Tbl κ α) (key : α → κ) (st : α → Status) : Bool :=
+  nodupKeys tA && nodupKeys tI &&
+  tA.all (fun p => decide (key p.2 = p.1) && decide (st p.2 = .StatusActive)) &&
+  tI.all (fun p => decide (key p.2 = p.1) && decide (st p.2 = .StatusInactive)) &&
+  tA.all (fun p => !tI.has p.1)
+
+/-- `idx` holds exactly the keys `proj k v` of the records of `t`. -/
+def indexOKb {κ α ι : Type} [DecidableEq κ] [DecidableEq ι] (idx : Tbl ι Unit) (t : Tbl κ α) (recOf : ι → κ) (proj : κ → α → ι) : Bool :=
+  idx.all (fun p => match t.get (recOf p.1) with | some v => decide (proj (recOf p.1) v = p.1) | none => false) &&
+  t.all (fun p => idx.has (proj p.1 p.2))
+
+def planAt (s : State) (i : Nat) : Option Plan := match s.planActive.get i with | some p => some p | none => s.planInactive.get i
+
+def genWFChecks (s : State) : List (String × Bool) :=
+  [ ("deposits nodup", nodupKeys s.deposits), ("links nodup", nodupKeys s.nodeForPlan), ("sessions nodup", nodupKeys s.sessions),
+    ("swaps nodup", nodupKeys s.swaps), ("inflations nodup", nodupKeys s.inflations),
+    ("providers partition", partOKb s.provActive s.provInactive (·.addr) (·.status)),
+    ("nodes partition", partOKb s.nodeActive s.nodeInactive (·.addr) (·.status)),
+    ("plans partition", partOKb s.planActive s.planInactive (·.id) (·.status)),
+    ("session key", s.sessions.all fun p => decide (p.2.id = p.1)),
+    ("swap key", s.swaps.all fun p => decide (p.2.hash = p.1)),
+    ("inflation key", s.inflations.all fun p => decide (p.2.ts = p.1)),
+    ("node queue", indexOKb s.nodeQ s.nodeActive (·.2) (fun a n => (n.inactiveAt, a))),
+    ("plan index", s.planForProv.all (fun p => match planAt s p.1.2 with | some pl => decide (pl.prov = p.1.1) | none => false) &&
+                   s.planActive.all (fun p => s.planForProv.has (p.2.prov, p.1)) && s.planInactive.all (fun p => s.planForProv.has (p.2.prov, p.1))),
+    ("links", s.nodeForPlan.all fun p => (s.planActive.has p.1.1 || s.planInactive.has p.1.1) && (s.nodeActive.has p.1.2 || s.nodeInactive.has p.1.2)),
+    ("session queue", indexOKb s.sessQ s.sessions (·.2) (fun i x => (x.inactiveAt, i))),
+    ("session by account", indexOKb s.sessForAcc s.sessions (·.2) (fun i x => (x.addr, i))),
+    ("session by node", indexOKb s.sessForNode s.sessions (·.2) (fun i x => (x.node, i))),
+    ("session by subscription", indexOKb s.sessForSub s.sessions (·.2) (fun i x => (x.sub, i))),
+    ("session by allocation", indexOKb s.sessForAlloc s.sessions (·.2.2) (fun i x => (x.sub, x.addr, i))),
+    ("plan counter", match s.planCount with
+      | some c => s.planActive.all (fun p => decide (p.1 ≤ c)) && s.planInactive.all (fun p => decide (p.1 ≤ c)) &&
+                  (decide (c = 0) || s.planActive.has c || s.planInactive.has c)
+      | none => false),
+    ("deposit records valid", s.deposits.all fun p => (validateDeposit p).isNone),
+    ("provider records valid", s.provActive.all (fun p => p.2.validate.isNone) && s.provInactive.all (fun p => p.2.validate.isNone)),
+    ("node records valid", s.nodeActive.all (fun p => p.2.validate.isNone) && s.nodeInactive.all (fun p => p.2.validate.isNone)),
+    ("plan records valid", s.planActive.all (fun p => p.2.validate.isNone) && s.planInactive.all (fun p => p.2.validate.isNone)),
+    ("session records valid", s.sessions.all fun p => p.2.validate.isNone),
+    ("swap records valid (F4: amount >= 100)", s.swaps.all fun p => p.2.validate.isNone),
+    ("inflation records valid", s.inflations.all fun p => p.2.validate.isNone),
+    ("parameters valid", s.params.provider.validate.isNone && s.params.node.validate.isNone && s.params.subscription.validate.isNone &&
+                         s.params.session.validate.isNone && s.params.swap.validate.isNone) ]
+
+/-- Names of the failing checks. -/
+def genWFViolations (s : State) : List String := (genWFChecks s).filterMap fun c => if c.2 then none else some c.1
+
+def genWFb (s : State) : Bool := (genWFChecks s).all (·.2)
+
 /-! ## Line protocol (`export` / `reimport`) -/
 
 def addrList (r : Role) (as : List Addr) : String :=
